@@ -57,6 +57,12 @@ func histJobsX(shapes []histShape, steps int, force, crash, rm, runerr, missing 
 		p := map[string]string{"spokfile": sh.spokfile, "files": sh.files, "globfiles": sh.globfiles, "requests": sh.requests,
 			"steps": strconv.Itoa(steps), "force": strconv.Itoa(force), "crash": strconv.Itoa(crash), "rmcache": strconv.Itoa(rm),
 			"runerr": strconv.Itoa(runerr), "missing": strconv.Itoa(missing), "writes": sh.writes}
+		if crash == 1 {
+			// a run writes the cache file at most once per task (the write-ahead that forgets a
+			// digest about to be superseded; or the placeholder, once) plus the final write: any
+			// of them may be the torn one
+			p["maxwrite"] = strconv.Itoa(strings.Count(sh.spokfile, "task "))
+		}
 		name := fmt.Sprintf("History[%s steps=%d force=%d crash=%d]", sh.name, steps, force, crash)
 		if runerr+missing > 0 {
 			name = fmt.Sprintf("History[%s steps=%d force=%d crash=%d runerr=%d missing=%d]", sh.name, steps, force, crash, runerr, missing)
@@ -103,7 +109,7 @@ func histCheck(id, title string, force, crash int, explain string) *checkDef {
 		Bounds: func(tier string) string {
 			if crash == 1 {
 				if tier == "thorough" {
-					return fmt.Sprintf("one killed step (before/after any command; before, at truncation, at a proper prefix or after completion of any write of the cache file) in: every 2-step history of %d shapes, 3-step histories of 4 shapes, 4-step histories of the one-task shape, and 3-step histories with --force and cache removal on 2 shapes", len(histShapes))
+					return fmt.Sprintf("one killed step (before/after any command; before, at truncation, at a proper prefix or after completion of any write of the cache file) in: every 2-step history of %d shapes, 3-step histories of 4 shapes, 4-step histories of the one-task shape, and 3-step histories with --force and cache removal on the one-task shape", len(histShapes))
 				}
 				return fmt.Sprintf("one killed step (before/after any command; before, at truncation, at a proper prefix or after completion of any write of the cache file) in: every 2-step history of %d shapes and every 3-step history of the one-task shape; no --force, no cache removal", len(histShapes))
 			}
@@ -114,7 +120,7 @@ func histCheck(id, title string, force, crash int, explain string) *checkDef {
 		},
 		Outside: []string{
 			"longer histories, other spokfile shapes, more than one changed byte per file (contents are abstracted to one byte)",
-			"deleting a literal dependency file (hashing a missing file is C18's subject)",
+			"a missing literal dependency file only as the cause of a run that stops with an error (jobs with missing=1); hashing a missing file is C18's subject",
 			"what the commands themselves do; the shell",
 		},
 		Assumptions:  runAssumptions,
@@ -139,7 +145,7 @@ func histCheck(id, title string, force, crash int, explain string) *checkDef {
 				if tier == "thorough" {
 					out = append(out, histJobs(byName("two-file-tasks", "file-task+no-dep-task", "chain"), 3, 0, 1, 0)...)
 					out = append(out, histJobs(byName("one-file-task"), 4, 0, 1, 0)...)
-					out = append(out, histJobs(byName("one-file-task", "two-file-tasks"), 3, 1, 1, 1)...)
+					out = append(out, histJobs(byName("one-file-task"), 3, 1, 1, 1)...)
 				}
 				return out
 			}
